@@ -1,0 +1,128 @@
+//go:build verif
+
+// Round 6, area L: the numbers nsqd reports - (ClientV2Stats).String (a subscriber / producer line of the text /stats), statsdLoop - checked by nsqvc.
+// Comment-only file. Assumed library contracts: lib/trusted/r6L.spec.
+
+package nsqd
+
+// One line of the text form of /stats per connection. A connection that has published (PubCounts non-empty) is printed as a producer,
+// any other as a consumer; the consumer line is fmt.Sprintf of the documented format with exactly the snapshot's state, in-flight,
+// ready, finish, requeue and message counts, in that order (C13: "/stats reports the same numbers in JSON and text form").
+//@ pred r6LConsumerFormat(f string) := f == "[%s %-21s] state: %d inflt: %-4d rdy: %-4d fin: %-8d re-q: %-8d msgs: %-8d connected: %s"
+//@ pred r6LProducerFormat(f string) := f == "[%s %-21s] msgs: %-8d topics: %s connected: %s"
+//@ func (s ClientV2Stats) String() string
+//@   props C13
+//@   nochan
+//@   ensures[the-text-is-the-last-format-call] result == r6LSprintfOut
+//@   ensures[consumer-line] len(s.PubCounts) == 0 ==> r6LConsumerFormat(r6LSprintfFmt) && len(r6LSprintfArgs) == 9 &&
+//@        dyntype(r6LSprintfArgs[0]) == typetag("string") && unbox(r6LSprintfArgs[0], "string") == s.Version &&
+//@        dyntype(r6LSprintfArgs[2]) == typetag("int32") && unbox(r6LSprintfArgs[2], "int32") == s.State &&
+//@        dyntype(r6LSprintfArgs[3]) == typetag("int64") && unbox(r6LSprintfArgs[3], "int64") == s.InFlightCount &&
+//@        dyntype(r6LSprintfArgs[4]) == typetag("int64") && unbox(r6LSprintfArgs[4], "int64") == s.ReadyCount &&
+//@        dyntype(r6LSprintfArgs[5]) == typetag("uint64") && unbox(r6LSprintfArgs[5], "uint64") == s.FinishCount &&
+//@        dyntype(r6LSprintfArgs[6]) == typetag("uint64") && unbox(r6LSprintfArgs[6], "uint64") == s.RequeueCount &&
+//@        dyntype(r6LSprintfArgs[7]) == typetag("uint64") && unbox(r6LSprintfArgs[7], "uint64") == s.MessageCount
+//@   ensures[producer-line] len(s.PubCounts) > 0 ==> r6LProducerFormat(r6LSprintfFmt) && len(r6LSprintfArgs) == 5 &&
+//@        dyntype(r6LSprintfArgs[0]) == typetag("string") && unbox(r6LSprintfArgs[0], "string") == s.Version &&
+//@        dyntype(r6LSprintfArgs[2]) == typetag("uint64")
+//@   ensures[single-topic-producer-total] len(s.PubCounts) == 1 ==> unbox(r6LSprintfArgs[2], "uint64") == s.PubCounts[0].Count
+//@   modifies mClock, cfgRemoteAddr
+//@   loop 0
+//@     invariant[total] (rangeindex == -1 ==> total == 0) && (rangeindex == 0 ==> total == s.PubCounts[0].Count) && rangeindex < len(s.PubCounts)
+//@     invariant[own-list] cap(topicOut) == 0 || fresh(base(topicOut))
+
+// ---- statsd.go: the periodic push of the counters to statsd (C13 anchors nsqd/statsd.go) ------------------------------------------------
+// Every round (tick) with a reachable statsd address: ONE snapshot of this daemon without filters; for EVERY topic of the snapshot (ephemeral
+// ones skipped only when configured) and EVERY channel of it the documented metrics are handed to the statsd client of this round:
+// counters (message_count, message_bytes, requeue_count, timeout_count) as the DIFFERENCE between this snapshot and the entry of the same
+// name in the snapshot of the previous round (the first entry of that name; all zero when there is none), computed like the code does
+// (uint64 subtraction, then int64: r6LI64), gauges (depth, backend_depth, in_flight_count, deferred_count, clients) as the CURRENT values; the
+// snapshot becomes the reference of the next round; then the buffered writer, the spread writer on the dialled connection are flushed
+// once and the connection is closed. The metric records are keys r6LMetric(client, type, stat name, value) in the set r6LMetricSet
+// (internal/statsd contracts); a stat name is fmt.Sprintf of the documented format with the topic (and channel) name (r4DFmt1 / r4DFmt2).
+// CONFIGURATION PRECONDITION [statsd-interval-config]: --statsd-interval >= 2s. SpreadWriter.Flush sleeps (interval - 1s) / packets
+// between packets and time.NewTicker PANICS for a non-positive duration (observation O1 of area r5F, not repaired: statsd is in no
+// property). "> 1s" is not enough: with 1s + 1ns and two packets the pause is 0. With >= 2s the pause is positive for fewer than 10^9
+// packets per round (environment assumption [backlog-bounded] of lib/trusted/r6L.spec).
+//@ fn r6LI64(x int) int := fmod(x + 9223372036854775808, 18446744073709551616) - 9223372036854775808
+//@ pred r6LTopicSkipped(ex bool, name string) := ex && isEph(name)
+//@ pred r6LNoTopic(prev []TopicStats, name string) := forall i int :: {prev[i]} 0 <= i && i < len(prev) ==> prev[i].TopicName != name
+//@ pred r6LPrevTopic(lt TopicStats, prev []TopicStats, name string) :=
+//@      (r6LNoTopic(prev, name) && lt.MessageCount == 0 && lt.MessageBytes == 0 && len(lt.Channels) == 0) ||
+//@      (exists j int :: {prev[j]} 0 <= j && j < len(prev) && prev[j].TopicName == name && (forall i int :: {prev[i]} 0 <= i && i < j ==> prev[i].TopicName != name) &&
+//@          lt.MessageCount == prev[j].MessageCount && lt.MessageBytes == prev[j].MessageBytes && lt.Channels == prev[j].Channels)
+//@ pred r6LNoChannel(prev []ChannelStats, name string) := forall i int :: {prev[i]} 0 <= i && i < len(prev) ==> prev[i].ChannelName != name
+//@ pred r6LPrevChannel(lc ChannelStats, prev []ChannelStats, name string) :=
+//@      (r6LNoChannel(prev, name) && lc.MessageCount == 0 && lc.RequeueCount == 0 && lc.TimeoutCount == 0) ||
+//@      (exists j int :: {prev[j]} 0 <= j && j < len(prev) && prev[j].ChannelName == name && (forall i int :: {prev[i]} 0 <= i && i < j ==> prev[i].ChannelName != name) &&
+//@          lc.MessageCount == prev[j].MessageCount && lc.RequeueCount == prev[j].RequeueCount && lc.TimeoutCount == prev[j].TimeoutCount)
+//@ pred r6LSent(c *statsd.Client, typ string, stat string, v int) := setin(r6LMetricSet, r6LMetric(c, typ, stat, v))
+//@ pred r6LTopicPushed(c *statsd.Client, t TopicStats, lt TopicStats) :=
+//@      r6LSent(c, "c", r4DFmt1("topic.%s.message_count", t.TopicName), r6LI64(t.MessageCount - lt.MessageCount)) &&
+//@      r6LSent(c, "c", r4DFmt1("topic.%s.message_bytes", t.TopicName), r6LI64(t.MessageBytes - lt.MessageBytes)) &&
+//@      r6LSent(c, "g", r4DFmt1("topic.%s.depth", t.TopicName), t.Depth) &&
+//@      r6LSent(c, "g", r4DFmt1("topic.%s.backend_depth", t.TopicName), t.BackendDepth)
+//@ pred r6LChannelPushed(c *statsd.Client, tn string, ch ChannelStats, lc ChannelStats) :=
+//@      r6LSent(c, "c", r4DFmt2("topic.%s.channel.%s.message_count", tn, ch.ChannelName), r6LI64(ch.MessageCount - lc.MessageCount)) &&
+//@      r6LSent(c, "g", r4DFmt2("topic.%s.channel.%s.depth", tn, ch.ChannelName), ch.Depth) &&
+//@      r6LSent(c, "g", r4DFmt2("topic.%s.channel.%s.backend_depth", tn, ch.ChannelName), ch.BackendDepth) &&
+//@      r6LSent(c, "g", r4DFmt2("topic.%s.channel.%s.in_flight_count", tn, ch.ChannelName), ch.InFlightCount) &&
+//@      r6LSent(c, "g", r4DFmt2("topic.%s.channel.%s.deferred_count", tn, ch.ChannelName), ch.DeferredCount) &&
+//@      r6LSent(c, "c", r4DFmt2("topic.%s.channel.%s.requeue_count", tn, ch.ChannelName), r6LI64(ch.RequeueCount - lc.RequeueCount)) &&
+//@      r6LSent(c, "c", r4DFmt2("topic.%s.channel.%s.timeout_count", tn, ch.ChannelName), r6LI64(ch.TimeoutCount - lc.TimeoutCount)) &&
+//@      r6LSent(c, "g", r4DFmt2("topic.%s.channel.%s.clients", tn, ch.ChannelName), ch.ClientCount)
+//@ pred r6LSetGrew(before set[int]) := forall x int :: {setin(r6LMetricSet, x)} setin(before, x) ==> setin(r6LMetricSet, x)
+//@ pred r6LRoundWriters(sw *writers.SpreadWriter, bw *writers.BoundaryBufferedWriter, client *statsd.Client, conn net.Conn, interval time.Duration) :=
+//@      sw != nil && bw != nil && client != nil && conn != nil && bw.bw != nil && client.w != nil && sw.w == conn && sw.interval == interval - 1000000000 && len(sw.buf) < 1000000000
+
+//@ func (n *NSQD) statsdLoop()
+//@   props C13
+//@   requires n != nil && n.tcpServer != nil
+//@   requires[statsd-interval-config] curOpts(n).StatsdInterval >= 2000000000
+//@   loop 0
+//@     invariant[daemon] n.tcpServer != nil && interval >= 2000000000 && ticker != nil
+//@     invariant[one-flush-per-successful-dial] r6LSwFlushes - atloop(r6LSwFlushes) == r6LDialOKs - atloop(r6LDialOKs) && r6LBwFlushes - atloop(r6LBwFlushes) == r6LDialOKs - atloop(r6LDialOKs)
+//@     invariant[flushed-and-closed-what-was-dialled] r6LDialOKs > atloop(r6LDialOKs) ==> r6LSwFlushed != nil && r6LSwFlushed.w == r6LDialConn && closedConn == r6LDialConn
+//@     invariant[one-snapshot-per-successful-dial] r5FGetStatsCalls - atloop(r5FGetStatsCalls) == r6LDialOKs - atloop(r6LDialOKs)
+//@     invariant[last-snapshot-is-the-reference] r5FGetStatsCalls > atloop(r5FGetStatsCalls) ==> lastStats.Topics == r5FGetStatsTopics && r5FGetStatsNSQD == n && r5FGetStatsTopic == "" && r5FGetStatsChannel == "" && !r5FGetStatsClients
+//@   loop 1
+//@     invariant[round] r6LRoundWriters(sw, bw, client, conn, interval) && n.tcpServer != nil && stats.Topics == r5FGetStatsTopics
+//@     invariant[client-as-configured] client.prefix == curOpts(n).StatsdPrefix && excludeEphemeral == curOpts(n).StatsdExcludeEphemeral && dialAddr == curOpts(n).StatsdAddress
+//@     invariant[snapshot-usable] forall k int :: {stats.Topics[k]} 0 <= k && k < len(stats.Topics) ==> stats.Topics[k].E2eProcessingLatency != nil &&
+//@          (forall j int :: {stats.Topics[k].Channels[j]} 0 <= j && j < len(stats.Topics[k].Channels) ==> stats.Topics[k].Channels[j].E2eProcessingLatency != nil)
+//@     invariant[position] rangeindex < len(stats.Topics)
+//@     invariant[every-topic-so-far-has-its-depth-gauge] forall k int :: {stats.Topics[k]} 0 <= k && k <= rangeindex && !r6LTopicSkipped(excludeEphemeral, stats.Topics[k].TopicName) ==>
+//@          r6LSent(client, "g", r4DFmt1("topic.%s.depth", stats.Topics[k].TopicName), stats.Topics[k].Depth)
+//@     invariant[every-channel-of-every-topic-so-far-has-its-depth-gauge] forall k int :: {stats.Topics[k]} 0 <= k && k <= rangeindex && !r6LTopicSkipped(excludeEphemeral, stats.Topics[k].TopicName) ==>
+//@          (forall j int :: {stats.Topics[k].Channels[j]} 0 <= j && j < len(stats.Topics[k].Channels) && !r6LTopicSkipped(excludeEphemeral, stats.Topics[k].Channels[j].ChannelName) ==>
+//@             r6LSent(client, "g", r4DFmt2("topic.%s.channel.%s.depth", stats.Topics[k].TopicName, stats.Topics[k].Channels[j].ChannelName), stats.Topics[k].Channels[j].Depth))
+//@     invariant[no-flush-yet] r6LSwFlushes == atloop(r6LSwFlushes) && r6LBwFlushes == atloop(r6LBwFlushes) && r6LDialOKs == atloop(r6LDialOKs) && r5FGetStatsCalls == atloop(r5FGetStatsCalls)
+//@     exit[every-topic-visited] rangeindex + 1 >= len(stats.Topics)
+//@   loop 2
+//@     invariant[position] rangeindex < len(lastStats.Topics)
+//@     invariant[no-earlier-entry-of-that-name] forall i int :: {lastStats.Topics[i]} 0 <= i && i <= rangeindex ==> lastStats.Topics[i].TopicName != topic.TopicName
+//@     invariant[zero-until-found] lastTopic.MessageCount == 0 && lastTopic.MessageBytes == 0 && len(lastTopic.Channels) == 0
+//@   loop 3
+//@     invariant[round] r6LRoundWriters(sw, bw, client, conn, interval)
+//@     invariant[reference-is-the-previous-entry-of-that-name] r6LPrevTopic(lastTopic, lastStats.Topics, topic.TopicName)
+//@     invariant[topic-deltas-and-gauges-pushed] r6LTopicPushed(client, topic, lastTopic)
+//@     invariant[nothing-unsent] r6LSetGrew(atloop(r6LMetricSet))
+//@     invariant[item-list] topic.E2eProcessingLatency != nil && rangeindex < len(topic.E2eProcessingLatency.Percentiles)
+//@   loop 4
+//@     invariant[round] r6LRoundWriters(sw, bw, client, conn, interval)
+//@     invariant[nothing-unsent] r6LSetGrew(atloop(r6LMetricSet))
+//@     invariant[position] rangeindex < len(topic.Channels)
+//@     invariant[channels-usable] forall j int :: {topic.Channels[j]} 0 <= j && j < len(topic.Channels) ==> topic.Channels[j].E2eProcessingLatency != nil
+//@     invariant[every-channel-so-far-has-its-depth-gauge] forall j int :: {topic.Channels[j]} 0 <= j && j <= rangeindex && !r6LTopicSkipped(excludeEphemeral, topic.Channels[j].ChannelName) ==>
+//@          r6LSent(client, "g", r4DFmt2("topic.%s.channel.%s.depth", topic.TopicName, topic.Channels[j].ChannelName), topic.Channels[j].Depth)
+//@     exit[every-channel-visited] rangeindex + 1 >= len(topic.Channels)
+//@   loop 5
+//@     invariant[position] rangeindex < len(lastTopic.Channels)
+//@     invariant[no-earlier-entry-of-that-name] forall i int :: {lastTopic.Channels[i]} 0 <= i && i <= rangeindex ==> lastTopic.Channels[i].ChannelName != channel.ChannelName
+//@     invariant[zero-until-found] lastChannel.MessageCount == 0 && lastChannel.RequeueCount == 0 && lastChannel.TimeoutCount == 0
+//@   loop 6
+//@     invariant[round] r6LRoundWriters(sw, bw, client, conn, interval)
+//@     invariant[reference-is-the-previous-entry-of-that-name] r6LPrevChannel(lastChannel, lastTopic.Channels, channel.ChannelName)
+//@     invariant[channel-deltas-and-gauges-pushed] r6LChannelPushed(client, topic.TopicName, channel, lastChannel)
+//@     invariant[nothing-unsent] r6LSetGrew(atloop(r6LMetricSet))
+//@     invariant[item-list] channel.E2eProcessingLatency != nil && rangeindex < len(channel.E2eProcessingLatency.Percentiles)
